@@ -128,3 +128,11 @@ PROPS["C18"] = dict(level="exploration",
                 args={"require-stage": "type_erase", "retag": "1"}, quick=(15, 600000), thorough=(240, 30000000))],
     assumptions=_EF_ASSUME + ["sequential, single-threaded: wrapper operations are not raced against each other",
                               "any_sender_of / type_erased_stream inside larger expressions are compared against reference models in which the wrapper is the identity"])
+
+PROPS["C10"] = dict(level="exploration",
+    units=[Unit("c10_tasks", "harness/c10_tasks.cpp", cfg="p20", max_size=100, quick=(30, 600000), thorough=(480, 30000000))],
+    assumptions=["sequential event mode: one thread; the driver decides when deferred sender completions, awaitable resumptions and scheduler hops are delivered and when the stop request arrives (always while a chosen sender occurrence is in flight)",
+                 "built as C++20 with clang (the pinned C++17 build compiles none of this code); async stack tracing off in this unit (the traced configuration is run under C20)"])
+
+# the task<> part of C04 (task.hpp is one of its anchors): the coroutine programs of C10 run with the stop-callback bookkeeping oracles of the harness stop source
+PROPS["C04"]["units"].append(Unit("c10_tasks", "harness/c10_tasks.cpp", cfg="p20", max_size=100, quick=(15, 300000), thorough=(240, 20000000)))
